@@ -34,7 +34,17 @@ import (
 //	N6  parentheses are dropped and put back by the printer where precedence
 //	    needs them;
 //	N7  `if !c {A} else {B}` is `if c {B} else {A}`, and `if a != b {A} else {B}`
-//	    is `if a == b {B} else {A}` (only with a plain else block, no init).
+//	    is `if a == b {B} else {A}` (only with a plain else block, no init);
+//	N8  `a = a op b` is `a op= b` for an identifier a;
+//	N9  `else { if c {..} }` is `else if c {..}`;
+//	N10 a comparison between two operands that are identifiers, selectors of
+//	    identifiers or literals is written with `<`/`<=` (never `>`/`>=`) and,
+//	    for `==`/`!=`, with the operands in text order;
+//	N12 `!(a < b)` is `a >= b` (and so on) when one operand is an integer
+//	    literal or a len/cap call, i.e. the comparison is between integers;
+//	N11 `if c { continue }` (or a bare `return` in a function without results)
+//	    followed by the rest of the block is `if !c { rest }` — the guard form
+//	    and the nested form of the same control flow.
 //
 // Each is an equivalence of Go programs, not a heuristic; what remains
 // reported is every edit outside them (hoisting, reordering of statements,
@@ -57,7 +67,15 @@ func canonFunc(fd *ast.FuncDecl) *ast.FuncDecl {
 		}
 	}
 	stripParens(fd.Body)
+	orientCompares(fd.Body)
+	if fd.Type.Results == nil || len(fd.Type.Results.List) == 0 {
+		fd.Body.List = unguard(fd.Body.List, token.RETURN)
+	} else {
+		fd.Body.List = unguardReturn(fd.Body.List)
+	}
 	fd.Body = canonBlock(fd.Body)
+	pushNot(fd.Body)
+	orientCompares(fd.Body)
 	alphaLocals(fd)
 	return fd
 }
@@ -176,6 +194,12 @@ func canonStmt(s ast.Stmt) []ast.Stmt {
 			if len(e) == 1 {
 				x.Else = e[0]
 			}
+			// N9: else { if .. }  ->  else if ..
+			if eb, ok := x.Else.(*ast.BlockStmt); ok && len(eb.List) == 1 {
+				if inner, ok := eb.List[0].(*ast.IfStmt); ok {
+					x.Else = inner
+				}
+			}
 		}
 		// N7: the positive form of a two-armed if
 		if eb, ok := x.Else.(*ast.BlockStmt); ok && x.Init == nil {
@@ -219,11 +243,22 @@ func canonStmt(s ast.Stmt) []ast.Stmt {
 						return []ast.Stmt{&ast.IncDecStmt{X: x.Lhs[0], Tok: tok}}
 					}
 				}
+				// N8: a = a op b  ->  a op= b
+				if be, ok := x.Rhs[0].(*ast.BinaryExpr); ok && exprString(be.X) == lhs {
+					if _, isId := x.Lhs[0].(*ast.Ident); isId {
+						if at, ok := map[token.Token]token.Token{token.ADD: token.ADD_ASSIGN, token.SUB: token.SUB_ASSIGN, token.MUL: token.MUL_ASSIGN, token.QUO: token.QUO_ASSIGN, token.REM: token.REM_ASSIGN, token.AND: token.AND_ASSIGN, token.OR: token.OR_ASSIGN, token.XOR: token.XOR_ASSIGN, token.SHL: token.SHL_ASSIGN, token.SHR: token.SHR_ASSIGN, token.AND_NOT: token.AND_NOT_ASSIGN}[be.Op]; ok {
+							x.Tok = at
+							x.Rhs[0] = be.Y
+						}
+					}
+				}
 			}
 		}
 	case *ast.ForStmt:
+		x.Body.List = unguard(x.Body.List, token.CONTINUE)
 		canonBlock(x.Body)
 	case *ast.RangeStmt:
+		x.Body.List = unguard(x.Body.List, token.CONTINUE)
 		canonBlock(x.Body)
 	case *ast.LabeledStmt:
 		in := canonStmt(x.Stmt)
@@ -602,6 +637,231 @@ func alphaLocals(fd *ast.FuncDecl) {
 						k++
 					}
 				}
+			}
+		}
+		return true
+	})
+}
+
+// orientCompares: N10.
+func orientCompares(root ast.Node) {
+	var simple func(e ast.Expr) bool
+	simple = func(e ast.Expr) bool {
+		switch x := e.(type) {
+		case *ast.Ident, *ast.BasicLit:
+			return true
+		case *ast.SelectorExpr:
+			_, ok := x.X.(*ast.Ident)
+			return ok
+		}
+		return false
+	}
+	ast.Inspect(root, func(n ast.Node) bool {
+		be, ok := n.(*ast.BinaryExpr)
+		if !ok || !simple(be.X) || !simple(be.Y) {
+			return true
+		}
+		switch be.Op {
+		case token.GTR:
+			be.Op, be.X, be.Y = token.LSS, be.Y, be.X
+		case token.GEQ:
+			be.Op, be.X, be.Y = token.LEQ, be.Y, be.X
+		case token.EQL, token.NEQ:
+			if exprString(be.X) > exprString(be.Y) {
+				be.X, be.Y = be.Y, be.X
+			}
+		}
+		return true
+	})
+}
+
+// unguard: N11. In a loop body (exit = continue) or in the body of a function
+// without results (exit = return): `if c { exit }` followed by the rest R of
+// the block becomes `if !c { R }`. Applied from the last guard backwards, so a
+// sequence of guards nests. The rest must not declare anything a later
+// statement outside would need (it is the tail of the block, so nothing
+// follows), and an unlabelled continue inside R still targets the same loop.
+func unguard(list []ast.Stmt, exit token.Token) []ast.Stmt {
+	for i := len(list) - 1; i >= 0; i-- {
+		ifs, ok := list[i].(*ast.IfStmt)
+		if !ok || ifs.Else != nil || ifs.Init != nil || len(ifs.Body.List) != 1 {
+			continue
+		}
+		isExit := false
+		switch b := ifs.Body.List[0].(type) {
+		case *ast.BranchStmt:
+			isExit = exit == token.CONTINUE && b.Tok == token.CONTINUE && b.Label == nil
+		case *ast.ReturnStmt:
+			isExit = exit == token.RETURN && len(b.Results) == 0
+		}
+		if !isExit || i == len(list)-1 {
+			continue
+		}
+		rest := append([]ast.Stmt{}, list[i+1:]...)
+		neg := &ast.UnaryExpr{Op: token.NOT, X: ifs.Cond}
+		var cond ast.Expr = neg
+		if u, ok := ifs.Cond.(*ast.UnaryExpr); ok && u.Op == token.NOT {
+			cond = u.X
+		} else if be, ok := ifs.Cond.(*ast.BinaryExpr); ok {
+			if inv, ok := map[token.Token]token.Token{token.EQL: token.NEQ, token.NEQ: token.EQL}[be.Op]; ok {
+				cond = &ast.BinaryExpr{X: be.X, Op: inv, Y: be.Y}
+			}
+		}
+		list = append(append([]ast.Stmt{}, list[:i]...), &ast.IfStmt{Cond: cond, Body: &ast.BlockStmt{List: rest}})
+	}
+	return list
+}
+
+// unguardReturn: N11 for a function with results. `if c { return E }` followed
+// by a rest R that ends in `return E` — the same E, a bare return (named
+// results) or identifiers and literals only — is `if !c { R' }; return E` with
+// R' = R without its final return: both forms reach the same return with the
+// same values, having run R' exactly when c is false.
+func unguardReturn(list []ast.Stmt) []ast.Stmt {
+	if len(list) < 3 {
+		return list
+	}
+	last, ok := list[len(list)-1].(*ast.ReturnStmt)
+	if !ok {
+		return list
+	}
+	simple := func(rs []ast.Expr) bool {
+		for _, e := range rs {
+			switch e.(type) {
+			case *ast.Ident, *ast.BasicLit:
+			default:
+				return false
+			}
+		}
+		return true
+	}
+	if !simple(last.Results) {
+		return list
+	}
+	same := func(a, b []ast.Expr) bool {
+		if len(a) != len(b) {
+			return false
+		}
+		for i := range a {
+			if exprString(a[i]) != exprString(b[i]) {
+				return false
+			}
+		}
+		return true
+	}
+	for i := len(list) - 3; i >= 0; i-- {
+		ifs, ok := list[i].(*ast.IfStmt)
+		if !ok || ifs.Else != nil || ifs.Init != nil || len(ifs.Body.List) != 1 {
+			continue
+		}
+		ret, ok := ifs.Body.List[0].(*ast.ReturnStmt)
+		if !ok || !same(ret.Results, last.Results) {
+			continue
+		}
+		// the rest must not assign what E reads (then "the same E" would be another value)
+		rest := append([]ast.Stmt{}, list[i+1:len(list)-1]...)
+		names := map[string]bool{}
+		for _, e := range last.Results {
+			if id, ok := e.(*ast.Ident); ok {
+				names[id.Name] = true
+			}
+		}
+		assigns := false
+		if len(last.Results) > 0 {
+			for _, st := range rest {
+				ast.Inspect(st, func(n ast.Node) bool {
+					switch x := n.(type) {
+					case *ast.AssignStmt:
+						for _, l := range x.Lhs {
+							if id, ok := l.(*ast.Ident); ok && names[id.Name] {
+								assigns = true
+							}
+						}
+					case *ast.IncDecStmt:
+						if id, ok := x.X.(*ast.Ident); ok && names[id.Name] {
+							assigns = true
+						}
+					case *ast.UnaryExpr:
+						if x.Op == token.AND {
+							if id, ok := x.X.(*ast.Ident); ok && names[id.Name] {
+								assigns = true
+							}
+						}
+					}
+					return true
+				})
+			}
+		}
+		if assigns {
+			continue
+		}
+		var cond ast.Expr = &ast.UnaryExpr{Op: token.NOT, X: ifs.Cond}
+		if u, ok := ifs.Cond.(*ast.UnaryExpr); ok && u.Op == token.NOT {
+			cond = u.X
+		} else if be, ok := ifs.Cond.(*ast.BinaryExpr); ok {
+			if inv, ok := map[token.Token]token.Token{token.EQL: token.NEQ, token.NEQ: token.EQL}[be.Op]; ok {
+				cond = &ast.BinaryExpr{X: be.X, Op: inv, Y: be.Y}
+			}
+		}
+		out := append([]ast.Stmt{}, list[:i]...)
+		out = append(out, &ast.IfStmt{Cond: cond, Body: &ast.BlockStmt{List: rest}}, last)
+		list = out
+	}
+	return list
+}
+
+// isIntish: e is certainly an integer: an INT literal or len(..)/cap(..).
+func isIntish(e ast.Expr) bool {
+	switch x := e.(type) {
+	case *ast.BasicLit:
+		return x.Kind == token.INT
+	case *ast.CallExpr:
+		if id, ok := x.Fun.(*ast.Ident); ok && (id.Name == "len" || id.Name == "cap") {
+			return true
+		}
+	}
+	return false
+}
+
+// pushNot: N12 — the negation of an integer comparison is the opposite comparison.
+func pushNot(root ast.Node) {
+	flip := map[token.Token]token.Token{token.LSS: token.GEQ, token.GEQ: token.LSS, token.GTR: token.LEQ, token.LEQ: token.GTR, token.EQL: token.NEQ, token.NEQ: token.EQL}
+	rewrite := func(e ast.Expr) ast.Expr {
+		u, ok := e.(*ast.UnaryExpr)
+		if !ok || u.Op != token.NOT {
+			return e
+		}
+		x := u.X
+		if p, ok := x.(*ast.ParenExpr); ok {
+			x = p.X
+		}
+		be, ok := x.(*ast.BinaryExpr)
+		if !ok {
+			return e
+		}
+		f, ok := flip[be.Op]
+		if !ok || !(isIntish(be.X) || isIntish(be.Y)) {
+			return e
+		}
+		return &ast.BinaryExpr{X: be.X, Op: f, Y: be.Y}
+	}
+	ast.Inspect(root, func(n ast.Node) bool {
+		switch x := n.(type) {
+		case *ast.IfStmt:
+			x.Cond = rewrite(x.Cond)
+		case *ast.ForStmt:
+			if x.Cond != nil {
+				x.Cond = rewrite(x.Cond)
+			}
+		case *ast.BinaryExpr:
+			x.X, x.Y = rewrite(x.X), rewrite(x.Y)
+		case *ast.AssignStmt:
+			for i := range x.Rhs {
+				x.Rhs[i] = rewrite(x.Rhs[i])
+			}
+		case *ast.ReturnStmt:
+			for i := range x.Results {
+				x.Results[i] = rewrite(x.Results[i])
 			}
 		}
 		return true
